@@ -94,6 +94,8 @@ def _explicit(ctx, w, mats, rho, ws, names, label, site, csite):
 
 
 def run(ctx):
+    from .common import array_hazard_sweep
+    array_hazard_sweep(ctx, "R2", ("nsf",), "the calculator's answer then depends on what the caller does with its weights or wavelengths between calls")
     rho = sp.Symbol("rho", positive=True)
     ws = sp.symbols("w1:5", positive=True)
     site = fsite(ctx, "nsf.neutron_composite_sld")
